@@ -16,6 +16,9 @@ from ..common import Report, MachineryError, load_known_findings, seed, scratch
 from ..pat import seq, ins, lit, group
 
 SECTIONS_RULE = "config:\n  sections:\n  - .text\npattern:\n- nop\n"
+# a rule with an address range: the observer that tags branch targets must not read presentation either (the
+# listing's direct and %rip-relative indirect branches, with and without their <sym> / # comment annotations)
+RANGE_RULE = "config:\n  valid_addr_range:\n    min: '0x400000'\n    max: '0x40ffff'\npattern:\n- nop\n"
 RULES = [seq(ins("call")), seq(ins("push"), ins("call")), seq(ins("mov", lit("rip"))), seq(group("not", ins("ret")), ins("ret"))]
 
 
@@ -73,6 +76,26 @@ def run(prop, tier):
             if len(report.violations) < 50:
                 report.violation(v[4:], {"kind": "parse", "mode": "abs", "lines": c["lines"], "listing": c["listing"],
                                          "observed": {"outcome": c["outcome"], "stream": c["stream"]}})
+    # the same under a rule with valid_addr_range: states that hold the same instructions (the edits never change
+    # them) must give the same stream as the first state of their group (Trace_Parse, mode pair)
+    def core(s):
+        return json.dumps([[l["addr"], l["mn"], l["ops"]] for l in s["listing"] if l["kind"] == "insn"], sort_keys=True)
+    first = {}
+    for i, s in enumerate(states):
+        first.setdefault(core(s), i)
+    sel_r = [i for i, s in enumerate(states) if tier == "quick" or i % 10 == 0 or "%rip" in core(s) and "call" in core(s)]
+    need = sorted(set(sel_r) | {first[core(states[i])] for i in sel_r})
+    robs = dict(zip(need, parsepipe.parse_texts([texts[i] for i in need], "c16r", rule=RANGE_RULE)))
+    rcases = [parsepipe.case("pair", states[first[core(states[i])]]["text"], [], robs[first[core(states[i])]], states[i]["text"], robs[i])
+              for i in sel_r if first[core(states[i])] != i]
+    rverd = parsepipe.validate(rcases, report, "c16r")
+    for c, v in zip(rcases, rverd):
+        if v.startswith("skip"):
+            raise MachineryError(f"C16 range pass: states of one group do not hold the same instructions: {v}")
+        if v.startswith("rej") and len(report.violations) < 50:
+            report.violation(v[4:].split("|")[0] + " (under a rule with valid_addr_range)",
+                             {"kind": "parse", "mode": "pair", "lines": c["lines"], "lines2": c["lines2"], "rule": RANGE_RULE,
+                              "observed": {"stream": c["stream"], "stream2": c["stream2"]}})
     # results of fixed rules on every state: validated against the pattern semantics on Stream(listing)
     job_rules = [{"id": n, "yaml": render.dump_yaml(render.rule_doc(P))} for n, P in enumerate(RULES)]
     step = 1 if tier == "thorough" or len(states) < 4000 else 2
@@ -147,10 +170,11 @@ def run(prop, tier):
             elif len(report.violations) < 50:
                 report.violation(v[4:] + f" (objdump {origin})", {"kind": "parse", "mode": "pair", "lines": a, "lines2": b,
                                                                  "observed": {"stream": c["stream"], "stream2": c["stream2"]}})
-    report.cov["evaluations"] = len(cases) + len(mcases) + len(pcases) + len(scases)
+    report.cov["evaluations"] = len(cases) + len(mcases) + len(pcases) + len(scases) + len(rcases)
     report.cov["traces_validated_against_impl"] = len(cases) + len(mcases) + len(pcases) + len(scases)
     report.cov["distinct_nontrivial"] = sum(1 for s in states if s["nedits"] >= 1) + len(pcases) - skipped
     report.cov["parts"] = [{"part": "edit states (TLC), each under a plain rule and under a rule with `sections`", "states": len(states), "rejected": sum(v.startswith("rej") for v in verdicts)},
+                           {"part": "edit states under a rule with valid_addr_range, against the first state with the same instructions", "pairs": len(rcases), "rejected": sum(v.startswith("rej") for v in rverd)},
                            {"part": "rule results on edit states", "cases": len(mcases), "rejected": sum(v.startswith("rej") for v in mverd)},
                            {"part": "real objdump variants", "pairs": len(pcases), "not_comparable": skipped,
                             "rejected": sum(v.startswith("rej") for v in pverd)}]
